@@ -24,6 +24,7 @@ import (
 	"github.com/lestrrat-go/jwx/v2/cert"
 	"github.com/nuts-foundation/go-did/did"
 	"github.com/nuts-foundation/nuts-node/crypto/hash"
+	"strings"
 	"sync"
 	"time"
 )
@@ -43,21 +44,32 @@ type DIDResolver interface {
 // go-did dereferences null entries of verificationMethod when it resolves verification relationships that are given
 // by reference, so a document with such an entry is refused before it is handed to go-did.
 func UnmarshalDocument(data []byte, document *did.Document) error {
-	var raw struct {
-		VerificationMethod json.RawMessage `json:"verificationMethod"`
-	}
-	if err := json.Unmarshal(data, &raw); err != nil {
+	var members map[string]json.RawMessage
+	if err := json.Unmarshal(data, &members); err != nil {
 		return err
 	}
-	var methods []json.RawMessage
-	if json.Unmarshal(raw.VerificationMethod, &methods) == nil {
-		for _, method := range methods {
-			if string(method) == "null" {
-				return errors.New("invalid verificationMethod: null entry")
-			}
+	for name, value := range members {
+		// encoding/json matches member names case-insensitively (and go-did decodes the document that way),
+		// so every spelling of the member is checked
+		if strings.EqualFold(name, "verificationMethod") && hasNullEntry(value) {
+			return errors.New("invalid verificationMethod: null entry")
 		}
 	}
 	return json.Unmarshal(data, document)
+}
+
+// hasNullEntry returns true if the given JSON value is an array that contains a null.
+func hasNullEntry(value json.RawMessage) bool {
+	var entries []json.RawMessage
+	if json.Unmarshal(value, &entries) != nil {
+		return false
+	}
+	for _, entry := range entries {
+		if string(entry) == "null" {
+			return true
+		}
+	}
+	return false
 }
 
 var _ DIDResolver = &ChainedDIDResolver{}
